@@ -187,7 +187,14 @@ pub fn exp_derive_input(di: &syn::DeriveInput, magic: &[String], flavor: &str) -
                         syn::GenericParam::Const(c) => Val::Var("Const".into(), Box::new(tok(c))),
                     });
                 }
-                let g = Val::Rec(vec![("params".into(), Val::List(params)), ("where".into(), di.generics.where_clause.to_val())]);
+                let tps: Vec<Val> = params
+                    .iter()
+                    .filter_map(|p| match p {
+                        Val::Var(k, v) if k == "Type" => Some((**v).clone()),
+                        _ => None,
+                    })
+                    .collect();
+                let g = Val::Rec(vec![("params".into(), Val::List(params)), ("where".into(), di.generics.where_clause.to_val()), ("type_params".into(), Val::List(tps))]);
                 if flavor == "gen_orig" {
                     with_original(g, &di.generics)
                 } else {
@@ -244,12 +251,16 @@ pub fn variant_form(i: usize, name: &str) -> String {
         5 => format!("#[a(k = \"bad\")] {name} {{ #[a(k = \"bad\")] x: u8, y: T }}"),
         6 => format!("#[a(k = 2)] #[doc = \"v\"] {name} = 1 + 2"),
         7 => format!("{name} {{ #[a(k = \"bad\")] x: u8, #[a(zz)] y: T }}"),
+        8 => format!("{name}(u8) = 4"),
+        9 => format!("#[a(k = 3)] {name} {{ x: u8 }} = 5"),
+        10 => format!("{name}() = 6"),
         _ => unreachable!(),
     }
 }
-pub const N_VARIANT_FORMS: usize = 8;
+pub const N_VARIANT_FORMS: usize = 11;
 
-pub const GENERICS: [(&str, &str); 6] = [
+pub const GENERICS: [(&str, &str); 7] = [
+    ("<T, const N: usize, U: Send, 'a, X = u8>", ""),
     ("", " where u8: Copy"),
     ("", ""),
     ("<'a>", ""),
